@@ -13,7 +13,7 @@ from .common import sample
 LEVEL = "model_checking"
 
 FRAGS = ["a", "bb + 1", '"s t"', '"u  v"', 'f("a b", 2)', "'it\"s ok'", "long_identifier_" + "x" * 24,
-         'g(x,"c d")', "-1", "x[0]", '"x" "y z"', "h('p  q' ,1)"]
+         'g(x,"c d")', "-1", "x[0]", '"x" "y z"', "h('p  q' ,1)", "'so quickly!'", '"a # b"']
 TEMPLATES = [("r = [%s]", ", "), ("r = %s", " + "), ("call(%s)", ", ")]
 
 
@@ -31,6 +31,32 @@ def wrap_real(target, line, level, width):
         return wrap_line(line, level=level, width=width), ""
     except Exception as e:
         return [line], type(e).__name__
+
+
+def emit_real(target, line, level):
+    """The generators' own per-line use of the wrapper: FortranCodeGenerator.get_code() on an emitted line, the Python
+    generator's _emit() inside a phase function.  Returns (wrapped lines without the base indentation, width, indent,
+    effective level, error)."""
+    try:
+        if target == "fortran":
+            from . import fprofile
+            g = fprofile.fortran_generator("m")
+            n0 = len(g.get_code().split("\n"))
+            g.module_emitter.code.append(" " * level + line)
+            out = g.get_code().split("\n")[n0:]
+            return [o[level:] if o.startswith(" " * level) else o for o in out], 80, 1, level, ""
+        from dagrt.codegen.python import CodeGenerator
+        g = CodeGenerator("S")
+        g.emit_def_begin("p")
+        for _ in range(level):
+            g._emitter.indent()
+        n0 = len(g._emitter.code)
+        g._emit(line)
+        lv = g._class_emitter.level + g._emitter.level
+        out = [o[4 * g._emitter.level:] if o.startswith(" " * 4 * g._emitter.level) else o for o in g._emitter.code[n0:]]
+        return out, 80, 4, lv, ""
+    except Exception as e:
+        return [line], 80, 4, level, type(e).__name__
 
 
 def ast_verdict(line, out):
@@ -80,6 +106,21 @@ def run(chk):
                     cases.append({"target": target, "line": list(line), "text": line, "level": lv, "indent": 4,
                                   "width": w, "out": [list(o) for o in out], "outtext": out, "err": err,
                                   "ast": ast_verdict(line, out) if target == "python" else "n/a"})
+    # emission level: the same lines through the generators' own per-line wrapping (long lines only)
+    for idxs in seqs:
+        if len(idxs) < 2:
+            continue
+        for tmpl in range(len(TEMPLATES)):
+            line = make_line(idxs, tmpl)
+            if len(line) < 60 and rng.random() < 0.8:
+                continue
+            line = "result_variable_with_a_long_name_%d = %s" % (tmpl, line) if tmpl == 2 else line
+            for target in ("python", "fortran"):
+                lv0 = rng.choice([0, 1, 3])
+                out, w, ind, lv, err = emit_real(target, line, lv0)
+                cases.append({"target": target, "line": list(line), "text": line, "level": lv, "indent": ind,
+                              "width": w, "out": [list(o) for o in out], "outtext": out, "err": err, "emit": True,
+                              "ast": ast_verdict(line, out) if target == "python" else "n/a"})
     chk.stage("wrap")
     tl = [{k: c[k] for k in ("target", "line", "level", "indent", "width", "out", "ast")} for c in cases]
     out = tlc.judge_batch("Wrap", tl, chunk=4000, chk=chk)
@@ -91,10 +132,11 @@ def run(chk):
         c = cases[k]
         pred = predicate(c)
         for clause in sorted(bad[k]):
-            chk.violation("C20:%s:%s:%s" % (clause, c["target"], pred),
-                          "wrap_line(%r, level=%d, width=%d) [%s] = %r violates %s"
-                          % (c["text"], c["level"], c["width"], c["target"], c["outtext"], clause),
-                          {"target": c["target"], "text": c["text"], "level": c["level"], "width": c["width"]})
+            chk.violation("C20:%s:%s:%s%s" % (clause, c["target"], pred, ":emission" if c.get("emit") else ""),
+                          "%s(%r, level=%d, width=%d) [%s] = %r violates %s"
+                          % ("generator emission" if c.get("emit") else "wrap_line", c["text"], c["level"], c["width"], c["target"],
+                             c["outtext"], clause),
+                          {"target": c["target"], "text": c["text"], "level": c["level"], "width": c["width"], "emit": bool(c.get("emit"))})
     for k, c in enumerate(cases):
         if c["err"]:
             chk.violation("C20:NoError:%s:%s" % (c["target"], c["err"]), "wrap_line raised %s on %r" % (c["err"], c["text"]),
@@ -120,11 +162,16 @@ def run(chk):
 
 def replay(chk, rep):
     c = rep["case"]
-    out, err = wrap_real(c["target"], c["text"], c["level"], c["width"])
+    ind = 4
+    if c.get("emit"):
+        base = c["level"] - (1 if c["target"] == "python" else 0)          # the Python class emitter adds one level
+        out, _w, ind, _lv, err = emit_real(c["target"], c["text"], max(base - (1 if c["target"] == "python" else 0), 0))
+    else:
+        out, err = wrap_real(c["target"], c["text"], c["level"], c["width"])
     print("input :", repr(c["text"]))
     for o in out:
         print("output:", repr(o))
-    case = {"target": c["target"], "line": list(c["text"]), "level": c["level"], "indent": 4, "width": c["width"],
+    case = {"target": c["target"], "line": list(c["text"]), "level": c["level"], "indent": ind, "width": c["width"],
             "out": [list(o) for o in out], "ast": ast_verdict(c["text"], out) if c["target"] == "python" else "n/a"}
     print("ast   :", case["ast"])
     path = tlc.write_cases([case])
